@@ -1,10 +1,11 @@
 // C07 — the change journal is faithful. Unit A: API state machine on a real account.Manager.
 //
 // Oracles:
-//   (1) after every RevertToSnapshot the observable dump of every account equals the dump taken at the snapshot, the
-//       journal has the length it had then, and nothing panics;
-//   (2) differential: a second real manager on the same base state executes only the operations that survived
-//       (were not reverted); raw logs, merged+finalised logs, version root and finalised dumps must be identical.
+//
+//	(1) after every RevertToSnapshot the observable dump of every account equals the dump taken at the snapshot, the
+//	    journal has the length it had then, and nothing panics;
+//	(2) differential: a second real manager on the same base state executes only the operations that survived
+//	    (were not reverted); raw logs, merged+finalised logs, version root and finalised dumps must be identical.
 package c07
 
 import (
